@@ -350,6 +350,8 @@ pub fn store_req(store: &Store, cmd: &str, a: &[&str]) -> Result<String, String>
             }
             Ok(out.join(" ;; "))
         }
+        // answered by the model only (the state of the Lean abstract store); the real store has nothing to say
+        "SPC" => Ok("-".into()),
         "RDF" => {
             // fault injection: run the nested request while `n` read transactions are held open (LMDB has 126 reader
             // slots; with NO_TLS every open read transaction takes one): a lookup the nested request starts then fails
